@@ -63,7 +63,24 @@ int main(int argc, char** argv) {
     std::vector<i128> c; Out o; Watchdog wd(60.0);
     while (read_case(c)) {
         wd.arm(&o);
-        if (m == "simple") {
+        if (m == "rvec") {
+            // white-box range pool of auto/affinity partitioner: b e g (op d)*  op 1 d = split_to_fill(d) | 2 = back()+pop_back | 3 = front()+pop_front (size > 1)
+            using RV = tbb::detail::d1::range_vector<tbb::blocked_range<long>, 8>;
+            RV rv(tbb::blocked_range<long>((long)c[0], (long)c[1], (std::size_t)c[2]));
+            for (size_t p = 3; p + 1 < c.size(); p += 2) {
+                int op = (int)c[p]; long d = (long)c[p + 1];
+                if (op == 1) { if (rv.my_size > 0) rv.split_to_fill((tbb::detail::d1::depth_t)d);   /* work_balance never refills an empty pool */ o.put((long)rv.my_head); o.put((long)rv.my_tail); o.put((long)rv.my_size); }
+                else if (op == 2) {
+                    if (rv.my_size > 0) { auto r = rv.back(); long dep = rv.back_depth(); rv.pop_back(); o.put(r.begin()); o.put(r.end()); o.put(dep); o.put((long)rv.my_head); o.put((long)rv.my_tail); o.put((long)rv.my_size); }
+                    else o.put(-1);
+                } else if (op == 3) {
+                    if (rv.my_size > 1) { auto r = rv.front(); long dep = rv.front_depth(); rv.pop_front(); o.put(r.begin()); o.put(r.end()); o.put(dep); o.put((long)rv.my_head); o.put((long)rv.my_tail); o.put((long)rv.my_size); }
+                    else o.put(-1);
+                } else o.put(-2);
+            }
+            o.put(-7);
+            for (int i = 0; i < (int)rv.my_size; ++i) { int idx = ((int)rv.my_tail + i) % 8; o.put(rv.my_pool.begin()[idx].begin()); o.put(rv.my_pool.begin()[idx].end()); o.put((long)rv.my_depth[idx]); }
+        } else if (m == "simple") {
             for (size_t i = 0; i + 2 < c.size(); i += 3) {
                 u64 b = (u64)c[i], e = (u64)c[i + 1], g = (u64)c[i + 2];
                 Rec rec;
